@@ -239,6 +239,8 @@ def frame(ctx, name, res, relative):
     allowed[('quantization_info', 'steps_per_second')] = None
   bad = []
   for w in ws:
+    if w.path == () and w.op in ('call:CopyFrom', 'call:MergeFrom'):
+      continue      # the defensive copy itself (a fresh message filled from the argument), like copy.deepcopy
     if w.path not in allowed:
       bad.append((w, 'field outside the quantization frame'))
       continue
